@@ -109,6 +109,7 @@ class SimLoop(asyncio.BaseEventLoop):
             # and whatever the job read at its start (the clock, shared state) is already old when its result arrives
             if fut.cancelled():
                 return
+            self.world.executor_job_seconds = 0.0
             try:
                 res = func(*args)
             except BaseException as e:  # noqa: BLE001
@@ -117,7 +118,17 @@ class SimLoop(asyncio.BaseEventLoop):
                 exc = e
                 self.schedule_ext(self.draw_latency_ns() // 4, lambda: None if fut.cancelled() else fut.set_exception(exc), "exec.done")
             else:
-                self.schedule_ext(self.draw_latency_ns() // 4, lambda: None if fut.cancelled() else fut.set_result(res), "exec.done")
+                # (a job may declare how long it took - a slow KDC, a smart card prompt: world.executor_job_seconds, set by the seam
+                # the job went through; its result arrives that much later, and the wall clock has moved on by then)
+                took = float(getattr(self.world, "executor_job_seconds", 0.0) or 0.0)
+                if took:
+                    self.world.stats["slow_executor_jobs"] += 1
+
+                    def tick(took=took):
+                        self.world.clock.advance_ns(int(took * 1e9))
+
+                    self.schedule_ext(int(took * 1e9), tick, "exec.slow")
+                self.schedule_ext(self.draw_latency_ns() // 4 + int(took * 1e9), lambda: None if fut.cancelled() else fut.set_result(res), "exec.done")
 
         self.schedule_ext(self.draw_latency_ns() // 4, run, "exec")
         if executor is not None and hasattr(executor, "shutdown"):
